@@ -31,7 +31,7 @@ def restart():
     """simulated process restart: only files survive"""
     boot.purge_code_under_test()
     simfs.register()
-    SIM.dead.clear()
+    SIM.epoch += 1
     return boot.import_code_under_test()
 
 
